@@ -1,7 +1,9 @@
 (** C15 - every SIMD kernel equals its scalar definition at every ISA level.
     This file only restates lemmas proved in Simd/DispatchProofs.v and Simd/SimdProofs.v. *)
 From Coq Require Import List Bool.
-From Carquet Require Import Gen.Dispatch_gen Gen.Intrinsics_gen Simd.DispatchModel Simd.DispatchProofs.
+From Coq Require Import NArith.
+From Carquet Require Import Base.Res Gen.Dispatch_gen Gen.Intrinsics_gen Simd.DispatchModel Simd.DispatchProofs.
+From Carquet Require Import Simd.Vec Simd.ScalarKernels Simd.SseKernels Simd.Avx2Kernels Simd.Avx512Kernels Simd.BssProofs.
 Import ListNotations.
 
 (** Dispatcher: for EVERY capability set (any list of features) and every slot of the dispatch table
@@ -20,3 +22,69 @@ Theorem dispatch_pinned_refuted :
     In F_avx512bw (requires k) /\ ~ In F_avx512bw c.
 Proof. exact dispatch_pinned_table_refuted. Qed.
 Print Assumptions dispatch_pinned_refuted.
+
+(** Kernels.  Shape of every kernel theorem: for every count and every content of exact-size arrays, the
+    transcription of the vector kernel returns (no [Fault]: every load/store index is inside [0, count*width))
+    exactly what the transcription of the scalar definition of dispatch.c returns. *)
+
+(** byte_stream_split, float: carquet_{sse,avx2,avx512}_byte_stream_split_{encode,decode}_float *)
+Theorem sse_bss_encode_float_kernel_eq_scalar : forall count src out0,
+  length src = 4 * count -> length out0 = 4 * count ->
+  exists out, sse_bss_encode_float count src out0 = Ok out /\ scalar_bss_encode 4 count src out0 = Ok out.
+Proof. exact sse_bss_encode_float_eq_scalar. Qed.
+Print Assumptions sse_bss_encode_float_kernel_eq_scalar.
+Theorem sse_bss_decode_float_kernel_eq_scalar : forall count src out0,
+  length src = 4 * count -> length out0 = 4 * count ->
+  exists out, sse_bss_decode_float count src out0 = Ok out /\ scalar_bss_decode 4 count src out0 = Ok out.
+Proof. exact sse_bss_decode_float_eq_scalar. Qed.
+Print Assumptions sse_bss_decode_float_kernel_eq_scalar.
+Theorem avx2_bss_encode_float_kernel_eq_scalar : forall count src out0,
+  length src = 4 * count -> length out0 = 4 * count ->
+  exists out, avx2_bss_encode_float count src out0 = Ok out /\ scalar_bss_encode 4 count src out0 = Ok out.
+Proof. exact avx2_bss_encode_float_eq_scalar. Qed.
+Print Assumptions avx2_bss_encode_float_kernel_eq_scalar.
+Theorem avx2_bss_decode_float_kernel_eq_scalar : forall count src out0,
+  length src = 4 * count -> length out0 = 4 * count ->
+  exists out, avx2_bss_decode_float count src out0 = Ok out /\ scalar_bss_decode 4 count src out0 = Ok out.
+Proof. exact avx2_bss_decode_float_eq_scalar. Qed.
+Print Assumptions avx2_bss_decode_float_kernel_eq_scalar.
+Theorem avx512_bss_encode_float_kernel_eq_scalar : forall count src out0,
+  length src = 4 * count -> length out0 = 4 * count ->
+  exists out, avx512_bss_encode_float count src out0 = Ok out /\ scalar_bss_encode 4 count src out0 = Ok out.
+Proof. exact avx512_bss_encode_float_eq_scalar. Qed.
+Print Assumptions avx512_bss_encode_float_kernel_eq_scalar.
+Theorem avx512_bss_decode_float_kernel_eq_scalar : forall count src out0,
+  length src = 4 * count -> length out0 = 4 * count ->
+  exists out, avx512_bss_decode_float count src out0 = Ok out /\ scalar_bss_decode 4 count src out0 = Ok out.
+Proof. exact avx512_bss_decode_float_eq_scalar. Qed.
+Print Assumptions avx512_bss_decode_float_kernel_eq_scalar.
+
+(** byte_stream_split, double: carquet_{sse,avx2}_byte_stream_split_{encode,decode}_double (there is no AVX-512 variant) *)
+Theorem sse_bss_encode_double_kernel_eq_scalar : forall count src out0,
+  length src = 8 * count -> length out0 = 8 * count ->
+  exists out, sse_bss_encode_double count src out0 = Ok out /\ scalar_bss_encode 8 count src out0 = Ok out.
+Proof. exact sse_bss_encode_double_eq_scalar. Qed.
+Print Assumptions sse_bss_encode_double_kernel_eq_scalar.
+Theorem sse_bss_decode_double_kernel_eq_scalar : forall count src out0,
+  length src = 8 * count -> length out0 = 8 * count ->
+  exists out, sse_bss_decode_double count src out0 = Ok out /\ scalar_bss_decode 8 count src out0 = Ok out.
+Proof. exact sse_bss_decode_double_eq_scalar. Qed.
+Print Assumptions sse_bss_decode_double_kernel_eq_scalar.
+Theorem avx2_bss_encode_double_kernel_eq_scalar : forall count src out0,
+  length src = 8 * count -> length out0 = 8 * count ->
+  exists out, avx2_bss_encode_double count src out0 = Ok out /\ scalar_bss_encode 8 count src out0 = Ok out.
+Proof. exact avx2_bss_encode_double_eq_scalar. Qed.
+Print Assumptions avx2_bss_encode_double_kernel_eq_scalar.
+Theorem avx2_bss_decode_double_kernel_eq_scalar : forall count src out0,
+  length src = 8 * count -> length out0 = 8 * count ->
+  exists out, avx2_bss_decode_double count src out0 = Ok out /\ scalar_bss_decode 8 count src out0 = Ok out.
+Proof. exact avx2_bss_decode_double_eq_scalar. Qed.
+Print Assumptions avx2_bss_decode_double_kernel_eq_scalar.
+
+(** ... and the scalar definition is the byte transposition output[b*count + i] = src[i*w + b] *)
+Theorem scalar_bss_encode_is_transposition : forall w count src out0,
+  length src = w * count -> length out0 = w * count ->
+  exists out, scalar_bss_encode w count src out0 = Ok out /\ length out = w * count /\
+              forall b i, b < w -> i < count -> nth (b * count + i) out 0%N = nth (i * w + b) src 0%N.
+Proof. exact scalar_bss_encode_transposes. Qed.
+Print Assumptions scalar_bss_encode_is_transposition.
